@@ -45,6 +45,8 @@ func init() {
 			rulePoolLifetime(c)
 			ruleMapSlot(c)
 			ruleScalarStore(c)
+			ruleLeafReadFresh(c)
+			ruleGrowCopy(c)
 			ruleSetLen(c)
 			ruleCountLoop(c)
 			ruleStructUntouched(c)
